@@ -46,3 +46,8 @@ func VerifRestState(o *Otto) (scopes int, labels int) {
 	}
 	return scopes, len(o.runtime.labels)
 }
+
+// VerifEvalDepth reports the number of direct evals the runtime counts as in progress.
+func VerifEvalDepth(o *Otto) int {
+	return o.runtime.evalDepth
+}
